@@ -106,6 +106,10 @@ fn dispatch(engine: &str, opts: &Options, replay_file: Option<&str>) -> i32 {
             c12::debug_replay(replay_file.expect("--replay"));
             0
         }
+        "c18-uniform" => {
+            c18::debug_uniform();
+            0
+        }
         "c18-debug" => {
             c18::debug_replay(replay_file.expect("--replay"));
             0
